@@ -89,6 +89,8 @@ def run_property(pid, tier="quick", seed=0, jobs=None, only=None):
         c = reg.contracts[key]
         if pid not in c.props or not c.verify:
             continue
+        if c.tier == "thorough" and tier != "thorough":
+            continue
         if only and only not in key:
             continue
         for v in c.variants:
